@@ -29,7 +29,7 @@ func declareAPI(r *Report, ids []string, mins map[string]int) aspectSet {
 
 func init() {
 	checks["C01"] = func(r *Report, p *Program, tier string) {
-		r.Explanation = "Decides, for all 32 request-issuing operations and all argument values at once, the structural facts the request bytes are a function of: the protocol layout of every request struct (L1-L5, L7 vs spec/wire.json), the function-code tables (L6), the wiring argument->offset incl. magic words, nil/partial maps and conditional clamps (A2-A4 vs spec/ops.json, path-sensitive over the regions cut by the comparison constants), the width/byte order/constant images of every field kind on the encode side (K1-K3), a fresh zeroed 64-byte buffer with byte 0 = 0x17 per Marshal call (K8), no package-level or client state written at run time (G1, IM1), one write per driver call (A2d). The date and time encoders format the civil fields of the instant they are given and recognise 'no date' by the instant's own zero test, whatever location it carries (Z2, Z6). Not decided: that bcd.Encode∘time.Format yields the right digits for every date (B1-B3 decide the digit map; digit positions and package time are trusted), nor what package net does with the bytes."
+		r.Explanation = "Decides, for all 32 request-issuing operations and all argument values at once, the structural facts the request bytes are a function of: the protocol layout of every request struct (L1-L5, L7 vs spec/wire.json), the function-code tables (L6), the wiring argument->offset incl. magic words, nil/partial maps and conditional clamps (A2-A4 vs spec/ops.json, path-sensitive over the regions cut by the comparison constants), the width/byte order/constant images of every field kind on the encode side (K1-K3), a fresh zeroed 64-byte buffer with byte 0 = 0x17 per Marshal call (K8), no package-level or client state written at run time (G1, IM1), one write per driver call (A2d). The date and time encoders format the civil fields of the instant they are given and recognise 'no date' by the instant's own zero test, whatever location it carries (Z2, Z6). The digit-to-nibble map of bcd.Encode is decided too (B1). No field with an encoder is left out and the field loop goes on after an embedded struct (K15, K22); dates are civil days in every zone (Z1, Z3). Not decided: that bcd.Encode∘time.Format yields the right digits for every date (B1-B3 decide the digit map; digit positions and package time are trusted), nor what package net does with the bytes."
 		r.Assumptions = []string{"go/packages, go/types, go/ssa (x/tools v0.29.0) represent the program faithfully", "spec/wire.json, spec/ops.json, spec/kinds.json state the UT0311-L0x protocol and API contract correctly", "time.Format emits the fixed digit counts of its layout verbs for years 0..9999", "binary.ByteOrder.PutUintNN writes exactly NN/8 bytes in that order"}
 		c := NewCodec(r, p, true)
 		if c == nil {
@@ -46,16 +46,22 @@ func init() {
 		RuleG1(r, p)
 		RuleTransport(r, p, aspectSet{"A2d": true, "RQ": true})
 		RuleFilter(r, p, aspectSet{"F1": true})
+		// ... whose digits are packed by bcd.Encode: each digit to its own nibble (B1)
+		r.Only = map[string]bool{"B1": true}
+		RuleBCD(r, p)
+		r.Only = nil
 		// BCD dates and times on the wire: the encoders format the civil fields of the instant they are given (Z2)
 		// and recognise 'no date' by the instant's own zero test, whatever location it carries (Z6)
-		r.Only = map[string]bool{"Z2": true, "Z6": true}
+		r.Only = map[string]bool{"Z1": true, "Z2": true, "Z3": true, "Z6": true}
 		RuleZone(r, p, c)
 		RuleInstants(r, p)
 		r.Only = nil
+		RuleK15(r, c) // a field with an encoder is never left out
+		RuleK22(r, c) // ... nor are the fields declared after an embedded struct
 	}
 
 	checks["C02"] = func(r *Report, p *Program, tier string) {
-		r.Explanation = "Decides the reply side: 31 reply layouts and the event layout equal the protocol's (L6, L7, L7e), result wiring and the sentinel decision tables of all reply-bearing operations equal spec/ops.json on every path (A6: card 0 / 0xffffffff, echoed card or profile mismatch, event type 0xff, index 0, profile 0, status event present iff index != 0), GetStatus and the listener agree (A6s), read extents/byte order/boolean table of every kind (K1-K3), nested decode errors (K5), zero 'no value' images (K9), out-of-domain handling of BCD, calendar and HH:mm values (K10, K10a, K10b). No state is kept between decodes (G1, G2). Not decided: time.ParseInLocation's calendar validation and the positional BCD arithmetic (trusted / C12)."
+		r.Explanation = "Decides the reply side: 31 reply layouts and the event layout equal the protocol's (L6, L7, L7e), result wiring and the sentinel decision tables of all reply-bearing operations equal spec/ops.json on every path (A6: card 0 / 0xffffffff, echoed card or profile mismatch, event type 0xff, index 0, profile 0, status event present iff index != 0), GetStatus and the listener agree (A6s), read extents/byte order/boolean table of every kind (K1-K3), nested decode errors (K5), zero 'no value' images (K9), out-of-domain handling of BCD, calendar and HH:mm values (K10, K10a, K10b). No state is kept between decodes (G1, G2). Each message of a call is decoded into a value created for it (K20). Not decided: time.ParseInLocation's calendar validation and the positional BCD arithmetic (trusted / C12)."
 		r.Assumptions = []string{"spec/wire.json and spec/ops.json state the protocol correctly", "time.ParseInLocation rejects impossible civil dates and times", "go/ssa is faithful"}
 		c := NewCodec(r, p, true)
 		if c == nil {
@@ -69,7 +75,8 @@ func init() {
 		RuleK3(r, c)
 		RuleK5(r, c)
 		RuleK9(r, c)
-		RuleG1(r, p) // what a reply decodes to is a function of that reply alone: no state is kept between decodes
+		RuleG1(r, p)  // what a reply decodes to is a function of that reply alone: no state is kept between decodes
+		RuleK20(r, c) // ... and each message of a call is decoded into a value created for it
 		RuleK10(r, p)
 		RuleK10c(r, c)
 		RuleBCD(r, p)
@@ -124,7 +131,7 @@ func init() {
 	}
 
 	checks["C05"] = func(r *Report, p *Program, tier string) {
-		r.Explanation = "Decides necessary structural conditions of invertibility: per kind, encoder and decoder agree on extent, byte order and constant images (K1-K3) and handle the same kind set (K7); per layout, fields are pairwise disjoint and inside the 64 bytes, so no two fields share a byte and decoders read only their own bytes (L3, L4); the zero 'no value' date/date-time image round-trips independently of the zone (K9); the dispatcher tables are exact and guarded (L6 both directions, F4). Field encoders are total (K21: an encoder that refuses a value makes the codec send zeros for it) and no message makes a dispatcher panic (P1/P2 sites of package messages). Not decided: value-level bijectivity of BCD∘time for every value, nor behaviour under each IANA zone (C13 covers the structural zone hazards)."
+		r.Explanation = "Decides necessary structural conditions of invertibility: per kind, encoder and decoder agree on extent, byte order and constant images (K1-K3) and handle the same kind set (K7); per layout, fields are pairwise disjoint and inside the 64 bytes, so no two fields share a byte and decoders read only their own bytes (L3, L4); the zero 'no value' date/date-time image round-trips independently of the zone (K9); the dispatcher tables are exact and guarded (L6 both directions, F4). Field encoders are total (K21: an encoder that refuses a value makes the codec send zeros for it) and no message makes a dispatcher panic (P1/P2 sites of package messages). The two BCD digit maps are each other's inverse (B1, B2). The encoder of every non-nil field is called (K15). Not decided: value-level bijectivity of BCD∘time for every value, nor behaviour under each IANA zone (C13 covers the structural zone hazards)."
 		r.Assumptions = []string{"spec/wire.json and spec/kinds.json state the protocol correctly", "go/ssa is faithful"}
 		c := NewCodec(r, p, true)
 		if c == nil {
@@ -138,7 +145,12 @@ func init() {
 		RuleK7(r, c)
 		RuleK9(r, c)
 		RuleK21(r, c) // a value the encoder refuses is sent as zeros: it shares its encoding with the zero value
+		RuleK15(r, c) // ... and so is a field whose encoder is not asked
 		RuleF4(r, p)
+		// the BCD kinds are inverse only if the two digit maps are (B1, B2)
+		r.Only = map[string]bool{"B1": true, "B2": true}
+		RuleBCD(r, p)
+		r.Only = nil
 		// "the dispatchers reject": a message that makes a dispatcher panic is not rejected - the index and slice
 		// sites of package messages are discharged
 		RulePanicIn(r, p, tier, "messages", map[string]int{"P1": 2, "P2": 0})
@@ -220,7 +232,7 @@ func init() {
 	}
 
 	checks["C10"] = func(r *Report, p *Program, tier string) {
-		r.Explanation = "Decides the listener's structure: per datagram exactly one of {error callback, forward}, forwarding only a 64-byte datagram with non-zero serial that decoded, as a value allocated for that datagram (LS1) whose type holds no reference into the reused receive buffer (LS2, K4); one pipe, one consumer, one event callback per element, consumer ends when the pipe is closed (LS3); connected callback once after the bind and never on a bind error (LS4); shutdown order signal -> await driver -> return nil (LS5); driver closes the socket after the signal, hands the handler exactly the bytes read and closes 'done' after the loop (LS6); the status is wired exactly like GetStatus (A6s); event layouts incl. the 0x19 start-of-message (L7e, F4); the shutdown flag shared by the two driver goroutines (T8). A field that is not valid BCD fails the decode (K10a). Not decided: delivery under real scheduling beyond 'single pipe, single consumer', nor OS-level rebinding."
+		r.Explanation = "Decides the listener's structure: per datagram exactly one of {error callback, forward}, forwarding only a 64-byte datagram with non-zero serial that decoded, as a value allocated for that datagram (LS1) whose type holds no reference into the reused receive buffer (LS2, K4); one pipe, one consumer, one event callback per element, consumer ends when the pipe is closed (LS3); connected callback once after the bind and never on a bind error (LS4); shutdown order signal -> await driver -> return nil (LS5); driver closes the socket after the signal, hands the handler exactly the bytes read and closes 'done' after the loop (LS6); the status is wired exactly like GetStatus (A6s); event layouts incl. the 0x19 start-of-message (L7e, F4); the shutdown flag shared by the two driver goroutines (T8). A field that is not valid BCD fails the decode (K10a). Nested decode errors are never dropped (K5), booleans are 0/1 (K3), the status date-time is recombined whole in the local zone (Z4, Z5). Not decided: delivery under real scheduling beyond 'single pipe, single consumer', nor OS-level rebinding."
 		r.Assumptions = []string{"Go channels deliver in order to a single receiver", "go/ssa is faithful"}
 		c := NewCodec(r, p, true)
 		if c == nil {
@@ -235,8 +247,16 @@ func init() {
 		// every field of a delivered event is the protocol decoding of its bytes: the date/time decoders parse
 		// with the layout their encoders format with (K10c)
 		RuleK10c(r, c)
-		// every other datagram produces an error: a field that is not valid BCD fails the decode (K10a)
+		// every other datagram produces an error: a field that is not valid BCD fails the decode (K10a), a nested
+		// decode error is never dropped (K5), a boolean byte other than 0/1 is an error (K3)
 		RuleK10Only(r, p, map[string]bool{"K10a": true})
+		RuleK5(r, c)
+		RuleK3(r, c)
+		// the status date-time of an event is recombined from its date and time as GetStatus does it, whole and in
+		// the local zone (Z4, Z5) - A6s only compares the two sites with each other
+		r.Only = map[string]bool{"Z4": true, "Z5": true}
+		RuleZone(r, p, c)
+		r.Only = nil
 		RuleShareIn(r, p, aspectSet{"T8": true, "T7": true}, func(parent string) bool { return !returnsListName(p, parent) })
 	}
 
@@ -312,11 +332,17 @@ func init() {
 	checks["C16"] = func(r *Report, p *Program, tier string) {
 		r.Level = "proof"
 		r.Exhaustive = true
-		r.Explanation = "Date.Before/After/Equals and HHmm.Before/After/Equals are extracted as total functions on the finite domain of sign vectors {<,=,>}^3 resp. {<,=,>}^2 of corresponding components (the only operations these functions apply to their inputs are comparisons of corresponding components, which the check also enforces) and compared with lexicographic <, >, = on every vector: trichotomy, mirror image and transitivity follow. DateTime.Before is shown to be x.sec < y.sec by shape (O3). SetTimeProfile rejects exactly when a segment's End.Before(Start) (A5)."
+		r.Explanation = "Date.Before/After/Equals and HHmm.Before/After/Equals are extracted as total functions on the finite domain of sign vectors {<,=,>}^3 resp. {<,=,>}^2 of corresponding components (the only operations these functions apply to their inputs are comparisons of corresponding components, which the check also enforces) and compared with lexicographic <, >, = on every vector: trichotomy, mirror image and transitivity follow. DateTime.Before is shown to be x.sec < y.sec by shape (O3). SetTimeProfile rejects exactly when a segment's End.Before(Start) (A5). A Date holds the civil day it was made from (Z1, Z3)."
 		r.Assumptions = []string{"time.Time.Year/Month/Day and struct field reads are pure", "the path walker (tool/walk.go) and go/ssa are faithful", "spec/ops.json for the SetTimeProfile rejection table"}
 		r.Extra["trusted_base"] = r.Assumptions
 		RuleOrder(r, p, tier)
 		RuleAPI(r, p, declareAPI(r, []string{"A0", "A5"}, map[string]int{"A0": 0}), map[string]bool{"SetTimeProfile": true})
+		// the verdicts agree with (year, month, day) only if a Date holds the civil day it was made from (Z1, Z3)
+		if c := NewCodec(r, p, false); c != nil {
+			r.Only = map[string]bool{"Z1": true, "Z3": true}
+			RuleZone(r, p, c)
+			r.Only = nil
+		}
 	}
 
 	checks["C17"] = func(r *Report, p *Program, tier string) {
@@ -342,7 +368,7 @@ func init() {
 	}
 
 	checks["C18"] = func(r *Report, p *Program, tier string) {
-		r.Explanation = "Decides, per field kind and per tag form and independently of the shipped messages: buffer accesses stay inside the field's width on encode and decode (K1), no view of the input escapes (K4), nested decode errors are enforced through embedding (K5), value tags are parsed with one base that admits the hexadecimal form the tag grammar allows (K6), encoder and decoder handle the same kind set incl. value/pointer interface dispatch (K7), byte order (K2), boolean table (K3), nil-tolerant decoders for pointer kinds (K11), fresh zeroed buffer (K8), a value: tag is emitted and enforced for every value of its constant (K19), and every index, slice, assertion and explicit panic of the codec package is discharged (P1/P3/P4 restricted to that package). Not decided: round-trip equality for generated layouts (value level)."
+		r.Explanation = "Decides, per field kind and per tag form and independently of the shipped messages: buffer accesses stay inside the field's width on encode and decode (K1), no view of the input escapes (K4), nested decode errors are enforced through embedding (K5), value tags are parsed with one base that admits the hexadecimal form the tag grammar allows (K6), encoder and decoder handle the same kind set incl. value/pointer interface dispatch (K7), byte order (K2), boolean table (K3), nil-tolerant decoders for pointer kinds (K11), fresh zeroed buffer (K8), a value: tag is emitted and enforced for every value of its constant (K19), and every index, slice, assertion and explicit panic of the codec package is discharged (P1/P3/P4 restricted to that package). The BCD digit maps are inverse (B1, B2); the field loop goes on after a nested walk (K22); a value created for a message reaches the field walk unwritten (K20). Not decided: round-trip equality for generated layouts (value level)."
 		r.Assumptions = []string{"spec/kinds.json states the protocol encodings", "go/ssa is faithful"}
 		c := NewCodec(r, p, true)
 		if c == nil {
@@ -356,8 +382,13 @@ func init() {
 		RuleK6(r, c)
 		RuleK19(r, c)
 		RuleK20(r, c)
+		RuleK22(r, c)
 		RuleK9(r, c)
 		RuleK21(r, c)
+		// the BCD kinds decode to what was encoded only if the two digit maps are inverse (B1, B2)
+		r.Only = map[string]bool{"B1": true, "B2": true}
+		RuleBCD(r, p)
+		r.Only = nil
 		// neither panics: the index, slice, assertion and explicit-panic sites of the codec package itself
 		RulePanicIn(r, p, tier, codecRel, map[string]int{"P1": 5, "P3": 0, "P4": 0})
 		RuleK7(r, c)
